@@ -28,12 +28,12 @@ type Runner struct {
 	// Prop is the property the oracle failures are reported for ("C01" or "C03").
 	Prop string
 	// encLog keeps every executed `enc` request with its schema for the C03 layout oracle.
-	encLog []encRecord
-	curDef string
+	encLog   []encRecord
+	typeLine string // the `type …` line of the current universe (for replayable failure details)
 }
 
 type encRecord struct {
-	def, op, impl, universe string
+	def, op, impl, universe, typeLine string
 }
 
 var ctxBg = context.Background()
@@ -92,6 +92,7 @@ func (x *Runner) Exec(op string) string {
 	switch f[0] {
 	case "type":
 		x.Env = nil
+		x.typeLine = op
 		if len(f) < 3 {
 			return "err"
 		}
@@ -139,7 +140,7 @@ func (x *Runner) Exec(op string) string {
 		if f[0] == "enc" {
 			ans := x.execEnc(v, val)
 			if x.Prop == "C03" && len(x.encLog) < 400000 {
-				x.encLog = append(x.encLog, encRecord{def: "def " + x.Env.Schema.SExp(), op: op, impl: ans, universe: x.Env.Name})
+				x.encLog = append(x.encLog, encRecord{def: "def " + x.Env.Schema.SExp(), op: op, impl: ans, universe: x.Env.Name, typeLine: x.typeLine})
 			}
 
 			return ans
@@ -181,6 +182,11 @@ func (x *Runner) where() string {
 	return fmt.Sprintf("universe=%s schema=%s", x.Env.Name, clip(x.Env.Schema.SExp(), 600))
 }
 
+// replay renders op lines that reproduce a failure (one per line in a file for `--replay`).
+func (x *Runner) replay(op string) string {
+	return " replay-ops=[" + x.typeLine + " ;; def - ;; " + clip(op, 6000) + "]"
+}
+
 func clip(s string, n int) string {
 	if len(s) > n {
 		return s[:n] + "…"
@@ -193,6 +199,7 @@ func clip(s string, n int) string {
 // whose maps were filled in another order) and the round trip Decode(Encode(v)) ≡ canon v, n = len.
 func (x *Runner) execEnc(v reflect.Value, validation bool) string {
 	s := x.Env.Schema
+	rp := x.replay("enc " + flagName(validation) + " " + ValText(s, v, TextOpts{}))
 	b, out := x.Encode(v, validation)
 	if out == "panic" {
 		// not a failure of C01 (a panic is not an accepted value); counted, and the model must agree
@@ -207,13 +214,13 @@ func (x *Runner) execEnc(v reflect.Value, validation bool) string {
 	// determinism
 	b2, out2 := x.Encode(v, validation)
 	if out2 != "ok" || !bytes.Equal(b, b2) {
-		x.R.Fail("determinism", fmt.Sprintf("two encodings of one value differ: %x vs %x (%s) %s", b, b2, out2, x.where()),
+		x.R.Fail("determinism", fmt.Sprintf("two encodings of one value differ: %x vs %x (%s) %s", b, b2, out2, x.where())+rp,
 			x.sig("determinism", "same-value", validation))
 	}
 	if cp, err := ParseVal(s, ValText(s, v, TextOpts{Perm: reversePerm})); err == nil {
 		b3, out3 := x.Encode(cp, validation)
 		if out3 != "ok" || !bytes.Equal(b, b3) {
-			x.R.Fail("determinism", fmt.Sprintf("rebuilt value (maps filled in reverse order) encodes differently: %x vs %x (%s) %s", b, b3, out3, x.where()),
+			x.R.Fail("determinism", fmt.Sprintf("rebuilt value (maps filled in reverse order) encodes differently: %x vs %x (%s) %s", b, b3, out3, x.where())+rp,
 				x.sig("determinism", "rebuilt-maps", validation))
 		}
 	}
@@ -223,14 +230,14 @@ func (x *Runner) execEnc(v reflect.Value, validation bool) string {
 		want := ValText(s, v, TextOpts{Norm: true})
 		switch {
 		case outD != "ok":
-			x.R.Fail("roundtrip", fmt.Sprintf("Decode(Encode(v)) = %s; bytes=%s value=%s %s", outD, clip(hexs(b), 200), clip(want, 400), x.where()),
+			x.R.Fail("roundtrip", fmt.Sprintf("Decode(Encode(v)) = %s; bytes=%s value=%s %s", outD, clip(hexs(b), 200), clip(want, 400), x.where())+rp,
 				x.sig("roundtrip-"+outD, Classify(s, v), validation))
 		case n != len(b):
-			x.R.Fail("roundtrip", fmt.Sprintf("Decode consumed %d of %d produced bytes; %s", n, len(b), x.where()),
+			x.R.Fail("roundtrip", fmt.Sprintf("Decode consumed %d of %d produced bytes; %s", n, len(b), x.where())+rp,
 				x.sig("roundtrip-count", Classify(s, v), validation))
 		default:
 			if got := ValText(s, d, TextOpts{Norm: true}); got != want {
-				x.R.Fail("roundtrip", fmt.Sprintf("Decode(Encode(v)) differs: want %s got %s; %s", clip(want, 400), clip(got, 400), x.where()),
+				x.R.Fail("roundtrip", fmt.Sprintf("Decode(Encode(v)) differs: want %s got %s; %s", clip(want, 400), clip(got, 400), x.where())+rp,
 					x.sig("roundtrip-value", Classify(s, v), validation))
 			}
 		}
@@ -254,7 +261,7 @@ func (x *Runner) execDec(b []byte, validation bool) string {
 	s := x.Env.Schema
 	d, n, out := x.Decode(b, validation)
 	if out == "panic" {
-		x.R.Fail("decode-panic", fmt.Sprintf("Decode panicked on %s; %s", clip(hexs(b), 200), x.where()),
+		x.R.Fail("decode-panic", fmt.Sprintf("Decode panicked on %s; %s", clip(hexs(b), 200), x.where())+x.replay("dec "+flagName(validation)+" "+hexs(b)),
 			x.sig("decode-panic", "input", validation))
 	}
 	if out != "ok" {
@@ -272,7 +279,7 @@ func (x *Runner) execDec(b []byte, validation bool) string {
 			b2, out2 := x.Encode(d, true)
 			if out2 != "ok" || !bytes.Equal(b2, b[:n]) {
 				x.R.Fail("canonical", fmt.Sprintf("validated Decode accepted %s (n=%d) but re-encoding gives %s %s; value=%s %s",
-					clip(hexs(b), 200), n, out2, clip(hexs(b2), 200), clip(ValText(s, d, TextOpts{}), 300), x.where()),
+					clip(hexs(b), 200), n, out2, clip(hexs(b2), 200), clip(ValText(s, d, TextOpts{}), 300), x.where())+x.replay("dec v "+hexs(b)),
 					x.sig("canonical-"+out2, ClassifyDecoded(s, d), validation))
 			} else {
 				x.R.Count("c03:reencoded-equal")
@@ -324,7 +331,7 @@ func (x *Runner) LayoutOracle(driver string) {
 		}
 		kind := strings.SplitN(e.impl, " ", 2)[0] + "-vs-" + strings.SplitN(ref, " ", 2)[0]
 		x.R.Fail("layout", fmt.Sprintf("Encode differs from the reference encoder: impl=%s reference=%s request=%s schema=%s universe=%s",
-			clip(e.impl, 300), clip(ref, 300), clip(e.op, 400), clip(e.def, 600), e.universe),
+			clip(e.impl, 300), clip(ref, 300), clip(e.op, 400), clip(e.def, 600), e.universe)+" replay-ops=["+e.typeLine+" ;; def - ;; "+clip(e.op, 6000)+"]",
 			map[string]string{"oracle": "layout", "trigger": kind, "type": e.universe})
 	}
 }
